@@ -145,6 +145,7 @@ ENGINE_KEYS = ['roaring.zzSelfFrame', 'roaring.zzSelfFresh', 'roaring.zzSelfByte
 ENGINE_OK = ['roaring.zzP.bump', 'roaring.zzB.bumpAll', 'roaring.zzMk', 'roaring.zzMask']
 
 FIX_COMMITS = [
+ ('ba312a2', 'roaring64.Bitmap.ReadFrom,roaring64.Bitmap.FromUnsafeBytes', '/'),
  ('a1b2e12', 'roaring.runContainer16.ixorBitmap', 'ixorBitmap'),
  ('8a6ff4c', 'roaring.bitmapContainer.NextUnsetBit', 'NextUnsetBit/'),
  ('58346d0', 'roaring.runContainer16.validate', 'validate/'),
